@@ -245,6 +245,10 @@ func main() {
 		childMain()
 		return
 	}
+	if os.Getenv("C18_CONCCHILD") != "" {
+		concChildMain()
+		return
+	}
 	run = common.Start("C18")
 	defer run.Finish()
 	run.Rule = "H: generated docker config documents (unknown nested keys, big numbers, legacy/malformed/unknown-field auth entries, " +
